@@ -129,7 +129,9 @@ RetBad(res) ==
             ELSE {"Harness"}     \* an error nobody returned: cannot come from the library
       [] res = "canceled" ->
             IF RealErrs # {} /\ ~cancelled THEN {"ErrMasked"} ELSE {}
-      [] OTHER -> {"Harness"}
+      \* "other:<text>": neither nil nor context.Canceled nor an error of the harness's functions -- an error
+      \* nobody returned (e.g. ctx.Err() of a caller whose context ended by its deadline)
+      [] OTHER -> {"WrongErr"}
 
 PRet(res) ==
     /\ phase' = "returned"
